@@ -259,6 +259,9 @@ func parseHeaderValueBlock(r io.Reader, streamId StreamId) (http.Header, uint32,
 
 func (f *Framer) readSynStreamFrame(h ControlFrameHeader, frame *SynStreamFrame) error {
 	frame.CFHeader = h
+	if h.length < 10 {
+		return &Error{InvalidControlFrame, 0}
+	}
 	var headerLen uint32 // length of header decompressed
 	var err error
 	if err = binary.Read(f.r, binary.BigEndian, &frame.StreamId); err != nil {
@@ -314,6 +317,9 @@ func (f *Framer) readSynStreamFrame(h ControlFrameHeader, frame *SynStreamFrame)
 
 func (f *Framer) readSynReplyFrame(h ControlFrameHeader, frame *SynReplyFrame) error {
 	frame.CFHeader = h
+	if h.length < 4 {
+		return &Error{InvalidControlFrame, 0}
+	}
 	var err error
 	if err = binary.Read(f.r, binary.BigEndian, &frame.StreamId); err != nil {
 		return err
@@ -364,6 +370,9 @@ func (f *Framer) checkHeaderFieldLimit(header http.Header) error {
 
 func (f *Framer) readHeadersFrame(h ControlFrameHeader, frame *HeadersFrame) error {
 	frame.CFHeader = h
+	if h.length < 4 {
+		return &Error{InvalidControlFrame, 0}
+	}
 	var err error
 	if err = binary.Read(f.r, binary.BigEndian, &frame.StreamId); err != nil {
 		return err
